@@ -43,7 +43,33 @@ theorem shrink_claimed_eq {s s' : State} {ptr oldSize : Nat} {newL : Layout} {r 
   all_goals first | (cases h; done) | skip
   all_goals (cases h; exact ⟨rfl, rfl⟩)
 
-theorem inv_onClaimed {g g' : GState} {out : Out} {op : Op} (h : Inv cfg g)
+/-! ## re-registering a live block under a new id -/
+
+/-- a live block is forgotten and the very same byte range is registered again (fresh id, possibly weaker
+    alignment `al` that its address satisfies, any `init`): the invariant is kept -/
+theorem inv_reregister {g : GState} (h : Inv cfg g) {blk : Block} {id al init : Nat}
+    (hmem : blk ∈ g.s.live) (hid : blk.id = id) (hal : al ∣ blk.addr) (hp2 : ∃ k, k < 64 ∧ al = 2 ^ k) :
+    Inv cfg ⟨(okOut (removeBlock g.s id) blk.addr blk.size al init).1, g.marks⟩ := by
+  have hcur : ∃ j, g.s.cur = .chunk j := by
+    cases hc : g.s.cur with
+    | chunk j => exact ⟨j, rfl⟩
+    | unallocated =>
+      have := h.liveCur hc
+      rw [this] at hmem; cases hmem
+    | claimed => exact absurd hc h.notClaimed
+  refine h.replaceBlock id ?_ hcur hp2
+  refine liveOK_addBlock_of (h.live.removeBlock id) init hal ?_ ?_
+  · intro hpos
+    exact placed_congr rfl rfl (h.live.placed blk hmem hpos)
+  · intro b' hb'
+    have hb'' : b' ∈ g.s.live ∧ (b'.id != id) = true := List.mem_filter.mp hb'
+    have hne : b' ≠ blk := by
+      intro e
+      rw [e, hid] at hb''
+      simp at hb''
+    exact Mem.pairwise_of_mem_ne (fun _ _ => Mem.BlocksDisjoint.symm) h.live.disjoint hb''.1 hmem hne
+
+theorem inv_onClaimed{g g' : GState} {out : Out} {op : Op} (h : Inv cfg g)
     (hs : stepCore cfg g (.onClaimed op) = .ok (g', out)) : Inv cfg g' := by
   unfold stepCore at hs
   simp only [bind, Except.bind, pure, Except.pure] at hs
@@ -76,7 +102,28 @@ theorem inv_onClaimed {g g' : GState} {out : Out} {op : Op} (h : Inv cfg g)
         split at hs
         · cases hs
         · rename_i blk hb
-          trace_state
-          stop skip
+          obtain ⟨hmem, hid⟩ := Mem.findBlock_ok hb
+          split at hs
+          · split at hs
+            · cases hs
+            · rename_i heq; cases heq
+          · split at hs
+            · split at hs
+              · cases hs
+              · rename_i heq; cases heq
+            · rename_i hnfit
+              have hfit : alignFits blk.addr L.align = true := by
+                cases hq : alignFits blk.addr L.align
+                · rw [hq] at hnfit; exact absurd rfl hnfit
+                · rfl
+              split at hs
+              · cases hs
+              · rename_i v hv
+                obtain ⟨s', r⟩ := v
+                obtain ⟨e1, e2⟩ := shrink_claimed_eq rfl hfit hv
+                subst e1 e2
+                simp only at hs
+                cases hs
+                exact inv_reregister h hmem hid (alignFits_dvd hfit) hL.1
 
 end Arena.Hist
